@@ -173,3 +173,41 @@ def post_parse_groups_are_complete(r):
         elif len(cs) != 1:
             return False
     return True
+
+
+# ------------------------------------------------------------------------------------------ C02: parsing input text
+def input_text_without_sgr(s):
+    """the input with exactly the SGR sequences (ESC [ parameters m) removed; everything else verbatim"""
+    return csi_tokens(s, False, 'm')[0]
+
+
+def input_state_at(s, k):
+    """state a conforming terminal is in when it prints the k-th remaining character of s (from its default state)"""
+    st = term_default()
+    for idx, params, term in csi_tokens(s, False, 'm')[1]:
+        if idx <= k:
+            if params == '':
+                st = term_default()
+            else:
+                st = term_apply(st, codes_of_text(params))
+    return st
+
+
+def post_parse_text(r):
+    return r.self._s == input_text_without_sgr(r.old_s)
+
+
+def parse_k_range(r):
+    return (0, len(r.self._s))
+
+
+def post_parse_char_state(r):
+    """each character reports the effective style a terminal would give it after the preceding sequences"""
+    return eff_state(view(r.self, r.k)) == input_state_at(r.old_s, r.k)
+
+
+def post_parse_plain_unformatted(r):
+    """text without SGR sequences is kept unchanged and unformatted"""
+    if len(csi_tokens(r.old_s, False, 'm')[1]) == 0:
+        return r.self._s == r.old_s and len(r.self._fmts) == 0
+    return True
